@@ -23,7 +23,7 @@
                                  CdMatchingIterator::next, GraphNameData
      turtle/src/serializer/nt.rs quoted_string
      sparql/src/exec.rs          graph (variable arm), graph_rec, and the iterators it builds
-                                 (std::iter::Chain / Flatten) consumed and dropped
+                                 (std::iter::FilterMap / Chain / Flatten) consumed and dropped
      jsonld/src/serializer/engine.rs  mark_list_node, populate_list, convert_rdf_object (Node arm)
      turtle/src/serializer/_pretty.rs find_subject
      api/src/term.rs             Term::constituents / to_constituents, atoms / to_atoms
@@ -294,52 +294,75 @@ Fixpoint count_special (txt : list N) : nat :=
 (* ------------------------------------------------------------------------------------------ *)
 (** * (c) GRAPH ?g : graph / graph_rec (sparql/src/exec.rs) and the iterators it builds        *)
 (* ------------------------------------------------------------------------------------------ *)
-Definition sol := list N.                     (* one solution, as numbers *)
-(* the boxed iterators: what a `select` returned (opaque, a list here), Chain, Flatten over a
-   vector of boxed iterators, Empty *)
+Definition sol := list N.                     (* one solution of GRAPH ?g { inner }: ?g first *)
+(* one solution of `inner` evaluated on one named graph: the value it gives to the variable of
+   the GRAPH clause, if it mentions it, and the rest *)
+Definition jsol := (option N * list N)%type.
+(* the `filter_map` closure of graph_rec: join the solution with { var -> name } *)
+Definition join1 (g : N) (j : jsol) : option sol :=
+  match fst j with
+  | Some x => if N.eqb x g then Some (g :: snd j) else None
+  | None => Some (g :: snd j)
+  end.
+Definition join_all (g : N) (l : list jsol) : list sol :=
+  flat_map (fun j => match join1 g j with Some s => [s] | None => [] end) l.
+
+(* the boxed iterators: Empty, FilterMap over what `select` returned for one graph (opaque: a
+   list), Chain, Flatten over a vector of such FilterMaps *)
 Inductive iter :=
 | IEmpty
-| ILeaf (l : list sol)
+| IJoin (g : N) (l : list jsol)
 | IChain (a b : iter)
-| IFlat (ls : list (list sol)).
+| IFlat (ls : list (N * list jsol)).
 
 Section Graph.
-(* self.select(inner, &[Some(name)], Some(&b)): the solutions for one graph name; its own stack
-   depth [dsel] depends on the inner pattern (and on (a)), not on the number of graphs *)
-Variable sel : N -> list sol.
+(* self.select(inner, &[Some(name)], binding): the solutions of the inner pattern on one graph;
+   its own stack depth [dsel] depends on the inner pattern (and on (a)), not on the number of
+   graphs *)
+Variable sel : N -> list jsol.
 Variable dsel : nat.
-Definition select_c (g : N) : C (list sol) := (sel g, dsel).
+Definition select_c (g : N) : C (list jsol) := (sel g, dsel).
 
 (* ORIGINAL graph_rec: one frame and one more nested Chain per graph name *)
 Fixpoint graph_rec_c (names : list N) : C iter :=
   call (match names with
         | [] => ret IEmpty
-        | g :: r => l <- select_c g ;; rest <- graph_rec_c r ;; ret (IChain (ILeaf l) rest)
+        | g :: r => l <- select_c g ;; rest <- graph_rec_c r ;; ret (IChain (IJoin g l) rest)
         end).
 (* PATCHED (C16-c.diff): a `for` loop pushing into a Vec, then `.into_iter().flatten()` *)
-Fixpoint graph_loop_body (names : list N) : C (list (list sol)) :=
+Fixpoint graph_loop_body (names : list N) : C (list (N * list jsol)) :=
   match names with
   | [] => ret []
-  | g :: r => l <- select_c g ;; ls <- graph_loop_body r ;; ret (l :: ls)
+  | g :: r => l <- select_c g ;; ls <- graph_loop_body r ;; ret ((g, l) :: ls)
   end.
 Definition graph_loop_c (names : list N) : C iter :=
   call (ls <- graph_loop_body names ;; ret (IFlat ls)).
 End Graph.
 
+(* FilterMap::next: a loop, in one frame, over inner.next() (a call) and the closure *)
+Fixpoint join_next_c (g : N) (l : list jsol) : C (option sol * list jsol) :=
+  match l with
+  | [] => _ <- leaf tt ;; ret (None, [])
+  | j :: r => _ <- leaf tt ;;
+              match join1 g j with Some s => ret (Some s, r) | None => join_next_c g r end
+  end.
 (* Flatten::next: a loop in one frame; each probe of the front iterator is a call *)
-Fixpoint flat_next_c (ls : list (list sol)) : C (option sol * iter) :=
+Fixpoint flat_next_c (ls : list (N * list jsol)) : C (option sol * iter) :=
   match ls with
   | [] => ret (None, IFlat [])
-  | [] :: ls' => _ <- leaf tt ;; flat_next_c ls'
-  | (x :: l) :: ls' => _ <- leaf tt ;; ret (Some x, IFlat (l :: ls'))
+  | (g, l) :: ls' =>
+      '(x, l') <- call (join_next_c g l) ;;
+      match x with
+      | Some s => ret (Some s, IFlat ((g, l') :: ls'))
+      | None => flat_next_c ls'
+      end
   end.
 (* Iterator::next on a boxed iterator.  Chain::next asks `a`, and when `a` is exhausted asks `b`:
    in a right-nested chain the call for the last graph goes through every level. *)
 Fixpoint it_next_c (it : iter) : C (option sol * iter) :=
   match it with
   | IEmpty => leaf (None, IEmpty)
-  | ILeaf [] => leaf (None, ILeaf [])
-  | ILeaf (x :: l) => leaf (Some x, ILeaf l)
+  | IJoin g l => call ('(x, l') <- join_next_c g l ;; ret (x, IJoin g l'))
   | IChain a b =>
       call ('(x, a') <- it_next_c a ;;
             match x with
@@ -353,12 +376,12 @@ Fixpoint it_next_c (it : iter) : C (option sol * iter) :=
 Fixpoint it_drop_c (it : iter) : C unit :=
   match it with
   | IEmpty => leaf tt
-  | ILeaf _ => leaf tt
+  | IJoin _ _ => leaf tt
   | IChain a b => call (_ <- it_drop_c a ;; it_drop_c b)
-  | IFlat ls => call ((fix go (ls : list (list sol)) : C unit :=
+  | IFlat ls => call ((fix go (ls : list (N * list jsol)) : C unit :=
                          match ls with [] => ret tt | _ :: r => _ <- leaf tt ;; go r end) ls)
   end.
-(* the caller's loop over the solutions, then the drop *)
+(* the caller's loop over the solutions *)
 Fixpoint it_collect_c (fuel : nat) (it : iter) : C (list sol * iter) :=
   match fuel with
   | O => ret ([], it)
@@ -368,28 +391,29 @@ Fixpoint it_collect_c (fuel : nat) (it : iter) : C (list sol * iter) :=
            | Some s => '(out, it'') <- it_collect_c f it' ;; ret (s :: out, it'')
            end
   end.
+(* number of inner solutions not yet pulled (every successful `next` pulls at least one) *)
 Fixpoint iter_size (it : iter) : nat :=
   match it with
   | IEmpty => O
-  | ILeaf l => length l
+  | IJoin _ l => length l
   | IChain a b => (iter_size a + iter_size b)%nat
-  | IFlat ls => length (concat ls)
+  | IFlat ls => length (flat_map snd ls)
   end.
 
 (* `GRAPH ?g { inner }` with ?g unbound, evaluated and consumed to the end, then dropped:
-   exec.rs `graph`: no named graph at all -> select(inner, &[]) (modelled by [sel0]), otherwise
-   graph_rec over the sorted names *)
-Definition graph_query_c (looped : bool) (sel : N -> list sol) (sel0 : list sol) (dsel : nat)
-           (names : list N) : C (list sol) :=
+   exec.rs `graph`: no named graph at all -> no solution, otherwise graph_rec over the sorted
+   names *)
+Definition graph_query_c (looped : bool) (sel : N -> list jsol) (dsel : nat) (names : list N)
+  : C (list sol) :=
   it <- match names with
-        | [] => (ILeaf sel0, dsel)
+        | [] => ret IEmpty
         | _ :: _ => if looped then graph_loop_c sel dsel names else graph_rec_c sel dsel names
         end ;;
   '(out, it') <- it_collect_c (S (iter_size it)) it ;;
   _ <- it_drop_c it' ;;
   ret out.
-Definition graph_query_p (sel : N -> list sol) (sel0 : list sol) (names : list N) : list sol :=
-  match names with [] => sel0 | _ :: _ => concat (map sel names) end.
+Definition graph_query_p (sel : N -> list jsol) (names : list N) : list sol :=
+  flat_map (fun g => join_all g (sel g)) names.
 
 (* ------------------------------------------------------------------------------------------ *)
 (** * (d) JSON-LD lists: mark_list_node, populate_list, convert_rdf_object                     *)
@@ -541,7 +565,7 @@ Fixpoint nesting (t : term) : nat :=
 Inductive input :=
 | InIter (ms : list matcher) (mlast : matcher) (rows : list row)   (* pattern query consumed to the end *)
 | InQuoted (txt : list N)
-| InGraph (sel : N -> list sol) (sel0 : list sol) (dsel : nat) (names : list N)
+| InGraph (sel : N -> list jsol) (dsel : nat) (names : list N)
 | InList (l : jl)
 | InMark (cells : list mcell)
 | InFind (key : N) (swt : list N)
@@ -553,7 +577,7 @@ Definition depth_of (looped : bool) (x : input) : nat :=
   match x with
   | InIter ms mlast rows => depth (iter_all_c looped ms mlast rows)
   | InQuoted txt => depth (if looped then quoted_string_loop_c txt else quoted_string_rec_c txt)
-  | InGraph sel sel0 dsel names => depth (graph_query_c looped sel sel0 dsel names)
+  | InGraph sel dsel names => depth (graph_query_c looped sel dsel names)
   | InList l => depth (if looped then pop_loop_c l else pop_rec_c l)
   | InMark cells => depth (if looped then mark_loop_c cells else mark_rec_c cells)
   | InFind key swt => depth (find_subject_c key swt)
@@ -565,7 +589,7 @@ Definition depth_of (looped : bool) (x : input) : nat :=
 Definition allowance (x : input) : nat :=
   match x with
   | InIter _ _ _ | InQuoted _ | InMark _ => O
-  | InGraph _ _ dsel _ => dsel
+  | InGraph _ dsel _ => dsel
   | InList l => (2 * jl_nest l)%nat
   | InFind _ swt => Nat.log2 (length swt)
   | InConstituents t | InAtoms t => nesting t
@@ -575,7 +599,7 @@ Definition size_of (x : input) : nat :=
   match x with
   | InIter _ _ rows => length rows
   | InQuoted txt => length txt
-  | InGraph _ _ _ names => length names
+  | InGraph _ _ names => length names
   | InList l => jl_len l
   | InMark cells => length cells
   | InFind _ swt => length swt
@@ -603,12 +627,14 @@ Definition iter_ok (accs : list (list N)) (rows : list row) (out : list row) (tr
 Definition quoted_ok (txt out : list N) : bool :=
   list_eqb N.eqb (res (quoted_string_loop_c txt)) out.
 
-Fixpoint assoc_sols (tbl : list (N * list sol)) (g : N) : list sol :=
-  match tbl with [] => [] | (k, v) :: r => if N.eqb k g then v else assoc_sols r g end.
-(* [names]: the graph names in the order of the BTreeSet<ArcTerm>; [tbl]: the solutions of the
-   inner pattern per graph, in store order; observed: all solutions of GRAPH ?g { inner } *)
-Definition graph_ok (names : list N) (tbl : list (N * list sol)) (sel0 : list sol) (out : list sol) : bool :=
-  list_eqb row_eqb (res (graph_query_c true (assoc_sols tbl) sel0 0 names)) out.
+Definition jsol_of (r : N * list N) : jsol := (if N.eqb (fst r) 0 then None else Some (fst r), snd r).
+Fixpoint assoc_sols (tbl : list (N * list (N * list N))) (g : N) : list jsol :=
+  match tbl with [] => [] | (k, v) :: r => if N.eqb k g then map jsol_of v else assoc_sols r g end.
+(* [names]: the graph names in the order of the BTreeSet<ArcTerm>; [tbl]: per graph, the solutions
+   of the inner pattern in store order, each with the value it gives to the GRAPH variable
+   (0 = none; identifiers start at 1); observed: all solutions of GRAPH ?g { inner } *)
+Definition graph_ok (names : list N) (tbl : list (N * list (N * list N))) (out : list sol) : bool :=
+  list_eqb row_eqb (res (graph_query_c true (assoc_sols tbl) 0 names)) out.
 Definition list_ok (l : jl) (toks : list N) : bool :=
   list_eqb N.eqb (res (conv_loop_c (JSub l))) toks.
 (* a flat list of [n] cells whose cell number [bad] (from the head, if < n) carries an extra
